@@ -239,6 +239,11 @@ class _Canon(ast.NodeTransformer):
             self.stats['canon_const_if'] = self.stats.get('canon_const_if', 0) + 1
             live = n.body if n.test.value else n.orelse
             return live if live else ast.copy_location(ast.Pass(), n)
+        # a literal tuple / list as a test is decided by its length (its items are pure)
+        if isinstance(n.test, (ast.Tuple, ast.List)) and all(is_pure(e) and not isinstance(e, ast.Starred) for e in n.test.elts):
+            self.stats['canon_const_if'] = self.stats.get('canon_const_if', 0) + 1
+            live = n.body if n.test.elts else n.orelse
+            return live if live else ast.copy_location(ast.Pass(), n)
         # if not not c:  ->  if c:   (only the truth value of a test is used)
         while isinstance(n.test, ast.UnaryOp) and isinstance(n.test.op, ast.Not) and isinstance(n.test.operand, ast.UnaryOp) \
                 and isinstance(n.test.operand.op, ast.Not):
@@ -1194,16 +1199,27 @@ def unguard_continue(fn, stats):
         for owner in ast.walk(fn):
             if not isinstance(owner, (ast.For, ast.While)):
                 continue
-            blk = owner.body
-            for i, s in enumerate(blk):
-                if isinstance(s, ast.If) and not s.orelse and len(s.body) == 1 and isinstance(s.body[0], ast.Continue) and blk[i + 1:]:
-                    neg = ast.UnaryOp(op=ast.Not(), operand=s.test)
-                    ast.copy_location(neg, s.test)
-                    new = ast.If(test=neg, body=blk[i + 1:], orelse=[])
-                    ast.copy_location(new, s)
-                    blk[i:] = [new]
-                    stats['guard_continue'] = stats.get('guard_continue', 0) + 1
-                    changed = True
+            # the loop body and every block that stands at its end (the body of a trailing `if`, recursively): `continue`
+            # there skips exactly the rest of that block
+            tail_blocks = [owner.body]
+            cur = owner.body
+            while cur and isinstance(cur[-1], ast.If):
+                tail_blocks.append(cur[-1].body)
+                if cur[-1].orelse:
+                    tail_blocks.append(cur[-1].orelse)
+                cur = cur[-1].body
+            for blk in tail_blocks:
+                for i, s in enumerate(blk):
+                    if isinstance(s, ast.If) and not s.orelse and len(s.body) == 1 and isinstance(s.body[0], ast.Continue) and blk[i + 1:]:
+                        neg = ast.UnaryOp(op=ast.Not(), operand=s.test)
+                        ast.copy_location(neg, s.test)
+                        new = ast.If(test=neg, body=blk[i + 1:], orelse=[])
+                        ast.copy_location(new, s)
+                        blk[i:] = [new]
+                        stats['guard_continue'] = stats.get('guard_continue', 0) + 1
+                        changed = True
+                        break
+                if changed:
                     break
             if changed:
                 break
@@ -1524,22 +1540,47 @@ def thread_flags(fn, stats):
                     if not tails:
                         continue
                     consts = []
+                    _NC = object()
                     for lst, k in tails:
                         st = lst[k]
                         if isinstance(st, ast.Assign) and len(st.targets) == 1 and isinstance(st.targets[0], ast.Name) and st.targets[0].id == r \
                                 and isinstance(st.value, ast.Constant):
                             consts.append(st.value.value)
+                        elif isinstance(st, ast.Assign) and len(st.targets) == 1 and isinstance(st.targets[0], ast.Name) and st.targets[0].id == r \
+                                and fwd is None and isinstance(s2, ast.If):
+                            consts.append(_NC)      # a non-constant end keeps the test (a copy of it) behind it
                         else:
                             consts = None
                             break
-                    if consts is None:
+                    if consts is None or all(c is _NC for c in consts):
                         continue
                     # r is read only inside s2, stored only at the tails
                     n_load = sum(1 for x in ast.walk(fn) if isinstance(x, ast.Name) and x.id == r and isinstance(x.ctx, ast.Load))
                     n_load2 = sum(1 for x in ast.walk(s2) if isinstance(x, ast.Name) and x.id == r and isinstance(x.ctx, ast.Load))
                     n_store = sum(1 for x in ast.walk(fn) if isinstance(x, ast.Name) and x.id == r and isinstance(x.ctx, (ast.Store, ast.Del)))
                     if n_load != n_load2 or n_store != len(tails):
-                        continue
+                        # the same flag name may serve several (first statement, test) pairs - one per arm of a dispatch:
+                        # fine when every read of it stands in such a test statement right behind a statement that
+                        # binds it on every way through
+                        covered = 0
+                        total_st = 0
+                        for o2 in ast.walk(fn):
+                            for f2 in ('body', 'orelse', 'finalbody'):
+                                b2 = getattr(o2, f2, None)
+                                if not isinstance(b2, list) or len(b2) < 2 or not isinstance(b2[0], ast.stmt):
+                                    continue
+                                for j2 in range(len(b2) - 1):
+                                    t2 = _tails([b2[j2]]) if isinstance(b2[j2], ast.If) else ([(b2, j2)] if isinstance(b2[j2], ast.Assign) else None)
+                                    if not t2 or not isinstance(b2[j2 + 1], ast.If):
+                                        continue
+                                    if all(isinstance(l_[k_], ast.Assign) and len(l_[k_].targets) == 1 and isinstance(l_[k_].targets[0], ast.Name)
+                                           and l_[k_].targets[0].id == r for l_, k_ in t2):
+                                        covered += sum(1 for x in ast.walk(b2[j2 + 1]) if isinstance(x, ast.Name) and x.id == r and isinstance(x.ctx, ast.Load))
+                                        total_st += len(t2)
+                        if covered != n_load or total_st != n_store:
+                            continue
+                    if any(c is _NC for c in consts) and sum(1 for _x in ast.walk(s2)) > 80:
+                        continue      # (the test is duplicated behind the non-constant ends: only when it is small)
                     if any(isinstance(x, ast.Name) and x.id == r and isinstance(x.ctx, ast.Store) for x in ast.walk(s2)):
                         continue
                     if isinstance(s1, ast.Assign) and len(tails) == 1 and tails[0][0] is blk:
@@ -1563,7 +1604,7 @@ def thread_flags(fn, stats):
                     decided = []
                     try:
                         for c in consts:
-                            decided.append(bool(_A.ev(s2.test, {r: c})))
+                            decided.append(None if c is _NC else bool(_A.ev(s2.test, {r: c})))
                     except Exception:
                         continue
 
@@ -1575,6 +1616,9 @@ def thread_flags(fn, stats):
                                 return n
                         return [R().visit(x) for x in clone(stmts)]
                     for (lst, k), c, d in zip(tails, consts, decided):
+                        if d is None:
+                            lst[k + 1:k + 1] = [clone(s2)]
+                            continue
                         repl = subst(s2.body if d else s2.orelse, c)
                         lst[k:k + 1] = repl if repl or len(lst) > 1 else [ast.copy_location(ast.Pass(), lst[k])]
                     blk.remove(s2)
@@ -1587,6 +1631,61 @@ def thread_flags(fn, stats):
                 break
     if rounds > 1:
         ast.fix_missing_locations(fn)
+
+
+def scalarise_tuple_results(fn, stats):
+    """the tuple an inlined helper "returns" (`__ret__iN = (a, b)` at the end of every way through it) and that the caller
+    unpacks at once (`x, y = __ret__iN`) is bound component by component: `x = a; y = b` at each of those ends"""
+    import re as _re
+    changed = True
+    while changed:
+        changed = False
+        for owner in ast.walk(fn):
+            for field in ('body', 'orelse', 'finalbody'):
+                blk = getattr(owner, field, None)
+                if not isinstance(blk, list) or len(blk) < 2 or not isinstance(blk[0], ast.stmt):
+                    continue
+                for i in range(len(blk) - 1):
+                    s1, s2 = blk[i], blk[i + 1]
+                    if not (isinstance(s2, ast.Assign) and len(s2.targets) == 1 and isinstance(s2.targets[0], (ast.Tuple, ast.List))
+                            and all(isinstance(t, ast.Name) for t in s2.targets[0].elts) and isinstance(s2.value, ast.Name)
+                            and _re.match(r'^__ret__i[0-9]+$', s2.value.id)):
+                        continue
+                    r = s2.value.id
+                    k = len(s2.targets[0].elts)
+                    if isinstance(s1, ast.If):
+                        tails = _tails([s1])
+                    elif isinstance(s1, ast.Assign):
+                        tails = [(blk, i)]
+                    else:
+                        continue
+                    if not tails:
+                        continue
+                    okt = all(isinstance(l_[j], ast.Assign) and len(l_[j].targets) == 1 and isinstance(l_[j].targets[0], ast.Name) and l_[j].targets[0].id == r
+                              and isinstance(l_[j].value, (ast.Tuple, ast.List)) and len(l_[j].value.elts) == k
+                              and not any(isinstance(e, ast.Starred) for e in l_[j].value.elts) for l_, j in tails)
+                    if not okt:
+                        continue
+                    if sum(1 for x in ast.walk(fn) if isinstance(x, ast.Name) and x.id == r and isinstance(x.ctx, ast.Load)) != 1:
+                        continue
+                    if sum(1 for x in ast.walk(fn) if isinstance(x, ast.Name) and x.id == r and isinstance(x.ctx, ast.Store)) != len(tails):
+                        continue
+                    tn = [t.id for t in s2.targets[0].elts]
+                    # the components must not read the names being bound (a, b = b, a)
+                    if any(isinstance(x, ast.Name) and x.id in tn for l_, j in tails for e in l_[j].value.elts for x in ast.walk(e)):
+                        continue
+                    for l_, j in tails:
+                        st = l_[j]
+                        l_[j:j + 1] = [ast.copy_location(ast.Assign(targets=[ast.Name(id=n_, ctx=ast.Store())], value=e), st) for n_, e in zip(tn, st.value.elts)]
+                    blk.remove(s2)
+                    stats['tuple_results_scalarised'] = stats.get('tuple_results_scalarised', 0) + 1
+                    changed = True
+                    break
+                if changed:
+                    break
+            if changed:
+                break
+    ast.fix_missing_locations(fn)
 
 
 def forward_temps(fn, stats):
@@ -1613,7 +1712,7 @@ def forward_temps(fn, stats):
                     continue
                 for j, c in enumerate(blk):
                     if not (isinstance(c, ast.Assign) and len(c.targets) == 1 and isinstance(c.targets[0], ast.Name) and isinstance(c.value, ast.Name)
-                            and _re.match(r'^__ret__i[0-9]+$', c.value.id)):
+                            and _re.search(r'__i[0-9]+$', c.value.id) and not _re.search(r'__i[0-9]+$', c.targets[0].id)):
                         continue
                     v, a = c.targets[0].id, c.value.id
                     loads = [x for x in ast.walk(fn) if isinstance(x, ast.Name) and x.id == a and isinstance(x.ctx, ast.Load)]
@@ -2224,6 +2323,53 @@ def normalize_module(modname, tree, stats, pkg_dir=None):
     return tree
 
 
+def _inherited_new_methods(modname, tree, pkg_dir, stats):
+    """methods that a refactoring pulled up into a base class living in another module of the package (not in the reference
+    list of that module): they are helpers of this module's methods just as if they stood here.  [(qual, FunctionDef, True)]"""
+    if not pkg_dir:
+        return []
+    out = []
+    imported = {}
+    for st in tree.body:
+        if isinstance(st, ast.ImportFrom) and st.module and st.level in (0, 1):
+            mod = st.module.split('.')[-1] if st.level == 0 and st.module.startswith('pyx12') else (st.module if st.level == 1 else None)
+            if mod:
+                for a in st.names:
+                    imported[a.asname or a.name] = (mod, a.name)
+    own = {c.name for c in tree.body if isinstance(c, ast.ClassDef)}
+    own_methods = {f.name for c in tree.body if isinstance(c, ast.ClassDef) for f in c.body if isinstance(f, ast.FunctionDef)}
+    seen = set()
+    for c in tree.body:
+        if not isinstance(c, ast.ClassDef):
+            continue
+        for b in c.bases:
+            bn = b.id if isinstance(b, ast.Name) else None
+            if bn is None or bn in own or bn not in imported:
+                continue
+            mod, cname = imported[bn]
+            if (mod, cname) in seen:
+                continue
+            seen.add((mod, cname))
+            path = os.path.join(pkg_dir, mod.replace('.', os.sep) + '.py')
+            if not os.path.isfile(path):
+                continue
+            try:
+                with open(path, encoding='utf-8', errors='replace') as fd:
+                    btree = ast.parse(fd.read())
+            except (OSError, SyntaxError):
+                continue
+            bbase = baseline_funcs().get(mod) or set()
+            for bc in btree.body:
+                if isinstance(bc, ast.ClassDef) and bc.name == cname:
+                    for f in bc.body:
+                        if isinstance(f, ast.FunctionDef) and '%s.%s' % (cname, f.name) not in bbase and f.name not in own_methods \
+                                and not f.name.startswith('__'):
+                            _Canon(stats).visit(f)
+                            out.append(('%s.%s' % (cname, f.name), f, True))
+                            stats.setdefault('inherited_helpers', []).append('%s:%s.%s' % (mod, cname, f.name))
+    return out
+
+
 def _normalize_pass(modname, tree, stats, pkg_dir):
     funcs = module_functions(tree)
     base = baseline_funcs().get(modname)
@@ -2231,8 +2377,9 @@ def _normalize_pass(modname, tree, stats, pkg_dir):
     for q, f, _m in funcs:
         resolve_name_dispatch(tree, classes0.get(q.split('.')[0]) if '.' in q else None, f, stats)
         resolve_function_table(tree, f, stats)
+    inherited = _inherited_new_methods(modname, tree, pkg_dir, stats) if base is not None else []
     if base is not None:
-        new = [(q, f, m) for q, f, m in funcs if q not in base]
+        new = [(q, f, m) for q, f, m in funcs if q not in base] + inherited
         if new:
             stats.setdefault('new_functions', []).extend('%s:%s' % (modname, q) for q, _f, _m in new)
             inl = Inliner(tree, new, stats)
@@ -2299,6 +2446,7 @@ def _normalize_pass(modname, tree, stats, pkg_dir):
             unguard_continue(f, stats)
             unroll_constant_loops(f, stats)
             _Canon(stats).visit(f)
+            scalarise_tuple_results(f, stats)
             forward_temps(f, stats)
             coalesce_aliases(f, stats)
             try:
